@@ -693,6 +693,26 @@ func genM1(r *rand.Rand, p Profile, id string) Case {
 			t.versions = keep
 			t.cur = v
 			t.dirty = false
+		case "faultlvfo":
+			// a rollback under storage faults; also the load of a version and a change-set extraction
+			if len(t.versions) < 2 {
+				continue
+			}
+			v := t.versions[r.Intn(len(t.versions)-1)]
+			if r.Intn(2) == 0 {
+				ops = append(ops, []string{"fault", "changes", i64(t.first()), i64(t.latest() + 1)})
+				ops = append(ops, []string{"fault", "cold", "load", i64(v)})
+			}
+			ops = append(ops, []string{"fault", "lvfo", i64(v)})
+			var keep []int64
+			for _, w := range t.versions {
+				if w <= v {
+					keep = append(keep, w)
+				}
+			}
+			t.versions = keep
+			t.cur = v
+			t.dirty = false
 		case "crashreopen":
 			// first-time / forced index build: open with the index disabled, commit, re-enable
 			ops = append(ops, []string{"reopen", "fast=false"}, []string{"set", hx(g.key()), hx([]byte("x"))}, []string{"save"})
